@@ -69,7 +69,7 @@ m = {"version": 1, "setup_cmd": "./setup.sh",
      "hooks": {"guard": "mla_verif",
                "enable": "rustc cfg `mla_verif`, printed (with the MLA_VERIF_* size constants) by the build.rs of the shadow packages generated under /verif/sim/gen, which compile /repo/mla/src/lib.rs under another package name; never set through RUSTFLAGS; /repo's manifests and lock file are untouched. The `prod` shadow package is built without the cfg.",
                "baseline_off_cmd": "cd /repo && cargo test --workspace --no-fail-fast --offline",
-               "source_commits": ["0d34012", "4a1e08c", "382a621"], "add_only": True},
+               "source_commits": ["0d34012", "4a1e08c", "382a621", "2b63855"], "add_only": True},
      "engines": [{"name": "mlasim", "path": "/verif/sim", "serves_properties": sorted(CHECKS),
                   "kind_free_text": "single-process deterministic simulator: one seeded PRNG decides workload, transfer schedules at the Write/Read/Seek seams, crash points and stored-byte faults; worker processes with static run assignment; shrinking; replay files; evidence"}],
      "checks": checks, "not_applicable": na,
